@@ -93,6 +93,13 @@ func (r *coreRun) argValue(tok string) any {
 			slog.NewGroupedAttr("g"+key, slog.Int("x", 1), slog.Int("x", 2)), slog.NewGroupedAttrEasy("g"+key, "x", 1))
 	case "egroup":
 		return pick[any](rn, slog.Group("g"+key), slog.Group(""), slog.NewGroupedAttr("g"+key))
+	case "bigattrs": // more attributes than any pooled slice is sized for
+		n := pick(rn, 1025, 1100, 2000)
+		big := make(slog.Attrs, 0, n)
+		for i := 0; i < n; i++ {
+			big = append(big, slog.Int(fmt.Sprintf("b%04d", i%1500), i))
+		}
+		return big
 	case "ngroup":
 		return pick[any](rn, slog.Group("g"+key, "x", 1, slog.Group("h", "y", 2, slog.Group("i", "z", 3))),
 			slog.Group("g"+key, slog.Group("h")), slog.Group("g"+key, slog.Group("h", slog.Group("i"))))
